@@ -279,6 +279,39 @@ def reachdist {n} (A : AMat Rat n) : AMat Bool n × AMat Ext n :=
   let r := reachGo C rows cols (n - 1) 2 { Cp := C, R := AMat.ofFn fun i j => C.get i j != 0, D := C }
   (r.1.R, AMat.ofFn fun i j => reachOutCell n r.2 (r.1.D.get i j) (inDeg C j != 0) (outDeg C i != 0))
 
+/-! ### the same computation in an evaluation order that is fast under `lean --run`
+
+`reachGo` mentions `reachStep C s` inside the closure of `rows.any …`, so the interpreter recomputes the matrix product for
+every tested cell (minutes at n = 40). The driver therefore evaluates `reachdistF`, in which every intermediate value is an
+argument of a non-inlined function (evaluated exactly once); `Props/C03.lean: reachdistF_eq` proves `reachdistF = reachdist`,
+so the theorems about `reachdist` are theorems about what the driver prints. (`reachdist` itself is left untouched: other
+modules prove facts about its exact shape.) -/
+
+@[noinline] def reachRF {n} (R : AMat Bool n) (Cp : AMat Nat n) : AMat Bool n :=
+  AMat.ofFn fun i j => R.get i j || Cp.get i j != 0
+@[noinline] def reachDF {n} (D : AMat Nat n) (R' : AMat Bool n) : AMat Nat n :=
+  AMat.ofFn fun i j => D.get i j + (if R'.get i j then 1 else 0)
+@[noinline] def reachStepWithF {n} (s : RSt n) (Cp : AMat Nat n) (R' : AMat Bool n) : RSt n :=
+  { Cp := Cp, R := R', D := reachDF s.D R' }
+@[noinline] def reachStepWith2F {n} (s : RSt n) (Cp : AMat Nat n) : RSt n := reachStepWithF s Cp (reachRF s.R Cp)
+def reachStepF {n} (C : AMat Nat n) (s : RSt n) : RSt n := reachStepWith2F s (boolMul s.Cp C)
+
+/-- the tail of `reachdist2` for the state `s'` its first three lines produced -/
+def reachGoF' {n} (C : AMat Nat n) (rows cols : List (Fin n)) : Nat → Nat → RSt n → RSt n × Nat
+  | 0, powr, s' => (s', powr)
+  | rem + 1, powr, s' =>
+    if rows.any fun i => cols.any fun j => !(s'.R.get i j) then reachGoF' C rows cols rem (powr + 1) (reachStepF C s')
+    else (s', powr)
+
+@[noinline] def reachOutF {n} (C : AMat Nat n) (powr : Nat) (D : AMat Nat n) : AMat Ext n :=
+  AMat.ofFn fun i j => reachOutCell n powr (D.get i j) (inDeg C j != 0) (outDeg C i != 0)
+@[noinline] def reachPackF {n} (C : AMat Nat n) (r : RSt n × Nat) : AMat Bool n × AMat Ext n := (r.1.R, reachOutF C r.2 r.1.D)
+@[noinline] def reachRunF {n} (C : AMat Nat n) : RSt n × Nat :=
+  reachGoF' C ((List.finRange n).filter fun i => outDeg C i != 0) ((List.finRange n).filter fun j => inDeg C j != 0) (n - 1) 2
+    (reachStepF C { Cp := C, R := AMat.ofFn fun i j => C.get i j != 0, D := C })
+@[noinline] def reachdistCF {n} (C : AMat Nat n) : AMat Bool n × AMat Ext n := reachPackF C (reachRunF C)
+def reachdistF {n} (A : AMat Rat n) : AMat Bool n × AMat Ext n := reachdistCF (binarize A)
+
 /-! ## executable certificate check for hop-distance matrices (used for `breadthdist` / `reachdist` outputs) -/
 
 /-- `D` with the diagonal read as 0 -/
@@ -456,7 +489,7 @@ def step (line : String) : String :=
       let A ← parseMatWith parseRat n (← lookup kv "A")
       match distBin A, breadthdist A with
       | some D, some (bR, bD) =>
-        let (rR, rD) := reachdist A
+        let (rR, rD) := reachdistF A
         let cert := bstr (hopCert A D) ++ bstr (hopCert A bD && flagsOK bR bD) ++ bstr (hopCert A rD && flagsOK rR rD)
         some s!"D={showMatWith Ext.str D} bR={showMatWith bstr bR} bD={showMatWith Ext.str bD} rR={showMatWith bstr rR} rD={showMatWith Ext.str rD} cert={cert}"
       | _, _ => some "error=fuel"
